@@ -1,0 +1,11 @@
+//go:build verif
+
+// Contracts for govc (the /verif contract verifier). Comment-only: with the build tag off this file is not
+// compiled, with it on it adds no code.
+package physical
+
+// appendOnly(n): the execution node n never produces a retraction (ghost predicate). A physical node whose schema
+// declares NoRetractions materializes into an append-only execution node — an invariant of the planner that is
+// assumed here (trusted) for the recursive materialization of the source.
+//@ func (*Node).Materialize
+//@   ensures appendonly: result1 == nil && node.Schema.NoRetractions ==> appendOnly(result0)
